@@ -29,6 +29,14 @@ EXTRA = {
              "src/funtracks/annotators/_graph_annotator.py", "src/funtracks/annotators/_annotator_registry.py",
              "src/funtracks/data_model/graph_attributes.py"],
 }
+EXTRA_BY_PROP = {
+    "C13": ["src/funtracks/import_export/magic_imread.py"],
+    "C12": ["src/funtracks/import_export/magic_imread.py", "src/funtracks/import_export/_import_segmentation.py"],
+    "C14": ["src/funtracks/import_export/magic_imread.py", "src/funtracks/import_export/_validation.py",
+            "src/funtracks/data_model/tracks.py", "src/funtracks/data_model/solution_tracks.py"],
+    "C15": ["src/funtracks/data_model/solution_tracks.py"],
+    "C16": ["src/funtracks/features/_feature_dict.py", "src/funtracks/import_export/_utils.py"],
+}
 EDIT_PROPS = {"C01", "C02", "C03", "C04", "C05", "C06", "C07", "C08", "C09", "C10", "C11", "C16", "C20"}
 
 
@@ -49,6 +57,7 @@ def anchored(pid: str) -> list[str]:
             files = list(d.get("anchors", {}).get("files", []))
     if pid in EDIT_PROPS:
         files += [f for f in EXTRA["edit"] if f not in files]
+    files += [f for f in EXTRA_BY_PROP.get(pid, []) if f not in files]
     return [f for f in files if f.endswith(".py")]
 
 
